@@ -82,7 +82,7 @@ theorem F8_wedge :
   refine ⟨[⟨1, .call⟩, ⟨1, .hget⟩,
       ⟨0, .call⟩, ⟨0, .hget⟩, ⟨0, .acqOk⟩, ⟨0, .hget⟩, ⟨0, .pull⟩, ⟨0, .put⟩, ⟨0, .hset⟩, ⟨0, .rel⟩, ⟨0, .hget⟩,
       ⟨0, .nget⟩, ⟨0, .acqOk⟩, ⟨0, .nget⟩, ⟨0, .pull⟩, ⟨0, .nset⟩, ⟨0, .put⟩, ⟨0, .rel⟩,
-      ⟨0, .bacq⟩, ⟨0, .inc⟩, ⟨0, .ncmp⟩, ⟨0, .brel⟩, ⟨0, .nget⟩, ⟨0, .recv⟩,
+      ⟨0, .bacq⟩, ⟨0, .ncmp⟩, ⟨0, .inc⟩, ⟨0, .ncmp⟩, ⟨0, .brel⟩, ⟨0, .nget⟩, ⟨0, .recv⟩,
       ⟨0, .call⟩, ⟨0, .nget⟩, ⟨0, .acqOk⟩, ⟨0, .nget⟩, ⟨0, .pull⟩, ⟨0, .nset⟩], _, rfl, ?_⟩
   decide
 
